@@ -768,6 +768,9 @@ class Phase(Angle):
                 other = u.Quantity(
                     inputs[1 - i_self], u.dimensionless_unscaled, copy=COPY_IF_NEEDED
                 ).value
+                # The exact product is done in double precision (a float16 factor
+                # would overflow in the splitting step and give NaN).
+                other = np.asarray(other, dtype=np.result_type(other, np.float64))[()]
                 if function is np.multiply:
                     return self.from_angles(
                         self["int"], self["frac"], factor=other, out=phase_out
